@@ -259,6 +259,11 @@ pub(crate) fn load_and_record(
             });
             if entry.is_ok() {
                 reloader.add_asset(id, deps, typ);
+            } else {
+                // Nothing is registered for an asset that failed to load, so
+                // the asset that requested it (if any) takes over what was
+                // read, to be reloaded once the failure can be fixed.
+                crate::hot_reloading::records::add_records(reloader, &deps);
             }
             return entry;
         }
